@@ -1098,8 +1098,8 @@ example : genIsSetupReady [1, 2] (fun _ => false) (fun p => p == 1) (fun _ => fa
 
 /-- **The hand written `dropParent` is the Python source of `drop_parent`** on its non-raising path: the model's new
 state is the old one with the registers of the child's class replaced by what the generated function leaves
-(`execRegs` = run the generated action on the registers; the adapter is needed because the model has no raising path —
-see `drop_raises_for_non_neighbour`).  For every graph, state, nodes and worker; no hypotheses. -/
+(`execRegs` = run the generated action on the registers and keep the registers; the adapter is needed because the model
+has no raising path — see `drop_raises_for_non_neighbour`).  For every graph, state, nodes and worker; no hypotheses. -/
 theorem dropParent_matches_source (g : Graph) (s : State) (child parent w : Nat) :
     dropParent g s child parent w =
       s.setCr (g.node child).cls (execRegs (genDropParent true ((g.node parent).cls, w))) := rfl
@@ -1109,14 +1109,15 @@ theorem dropChild_matches_source (g : Graph) (s : State) (parent child w : Nat) 
     dropChild g s parent child w =
       s.setCr (g.node parent).cls (execRegs (genDropChild true ((g.node child).cls, w))) := rfl
 
-/-- complete description of the generated drops, for every flag, key and register record: not a neighbour ⇒ `ValueError`
-and nothing is registered (a path the model does not have: its callers drop the node they came from); a neighbour ⇒
-exactly one `regAdd` on the dropped register of that side, the three other registers untouched -/
+/-- complete description of the generated drops, for every flag, key and register record (result AND registers; the
+exception layer of `RegM` is outside the state, so a mark made before a `raise` would be seen): not a neighbour ⇒
+`ValueError` and NOTHING is registered (a path the model does not have: its callers drop the node they came from); a
+neighbour ⇒ exactly one `regAdd` on the dropped register of that side, the three other registers untouched -/
 theorem drop_raises_for_non_neighbour (b : Bool) (key : Nat × Nat) (r : ClassRegs) :
-    (genDropParent b key).run r =
-      (if b then .ok ((), { r with droppedSetup := regAdd r.droppedSetup key }) else .error "ValueError") ∧
-    (genDropChild b key).run r =
-      (if b then .ok ((), { r with droppedCleanup := regAdd r.droppedCleanup key }) else .error "ValueError") := by
+    (genDropParent b key).run.run r =
+      (if b then (.ok (), { r with droppedSetup := regAdd r.droppedSetup key }) else (.error "ValueError", r)) ∧
+    (genDropChild b key).run.run r =
+      (if b then (.ok (), { r with droppedCleanup := regAdd r.droppedCleanup key }) else (.error "ValueError", r)) := by
   cases b <;> exact ⟨rfl, rfl⟩
 
 /-- the order of the model's single sort is the lexicographic combination of the three Python sort keys -/
@@ -1134,15 +1135,15 @@ theorem pickKey_order (g : Graph) (s : State) (parent : Bool) :
 `RuntimeError` for an exhausted node, the three stable sorts (prefix priority, then picks so far, then flat first; the
 model sorts once with the lexicographic key — `Lemmas/PyGenSort.stableSort_comp`), the first element, and the one
 `register` on the picked-by-cleanup register of the class of the PICKED node — same result, same new state, same
-exception, for every graph, state, node and worker.  No hypotheses. -/
+exception (and then an UNCHANGED state), for every graph, state, node and worker.  No hypotheses. -/
 theorem pickParent_matches_source (g : Graph) (s : State) (n w : Nat) :
     (genPickParent g ((g.node n).setup.map (·.1)) (fun p => (g.node p).flat) (fun p => g.idIn w p)
         (fun p => (regWorkers (s.cr (g.node n).cls).droppedSetup (some (g.node p).cls)).contains w)
         (fun p => regTotal (s.cr (g.node p).cls).pickedByCleanup) (fun p => (g.node p).rank)
-        ((g.node n).cls, w)).run s =
+        ((g.node n).cls, w)).run.run s =
       (match pickParent g s n w with
-        | some r => .ok r
-        | none => .error "RuntimeError") := by
+        | some r => (.ok r.1, r.2)
+        | none => (.error "RuntimeError", s)) := by
   rw [genPickParent_run, pickParent, pickKey_order g s true]
   simp only [relevant, if_true]
   cases stableSort _ _ <;> rfl
@@ -1152,10 +1153,10 @@ theorem pickChild_matches_source (g : Graph) (s : State) (n w : Nat) :
     (genPickChild g ((g.node n).cleanup.map (·.1)) (fun p => (g.node p).flat) (fun p => g.idIn w p)
         (fun p => (regWorkers (s.cr (g.node n).cls).droppedCleanup (some (g.node p).cls)).contains w)
         (fun p => regTotal (s.cr (g.node p).cls).pickedBySetup) (fun p => (g.node p).rank)
-        ((g.node n).cls, w)).run s =
+        ((g.node n).cls, w)).run.run s =
       (match pickChild g s n w with
-        | some r => .ok r
-        | none => .error "RuntimeError") := by
+        | some r => (.ok r.1, r.2)
+        | none => (.error "RuntimeError", s)) := by
   rw [genPickChild_run, pickChild, pickKey_order g s false]
   simp only [relevant, Bool.false_eq_true, if_false]
   cases stableSort _ _ <;> rfl
